@@ -2,6 +2,9 @@
 (* C02, binding B (table validation): every line of the table recorded from    *)
 (* the real base.Threshold.Threshold is an initial state; TLC evaluates the    *)
 (* exact integer ceiling Tally!Req for all 491 one-decimal thresholds 51.0 ..  *)
+(* 100.0 of the line; row.v says how the thresholds were made ("value": Go     *)
+(* constants; "text": decoded from their text form as voteproofs and the node  *)
+(* parameters carry them - the count the protocol requires must be the same)   *)
 (* 100.0 of the line and prints every mismatch (it never stops at the first:   *)
 (* the driver classifies each mismatch).                                       *)
 EXTENDS Integers, Sequences, TLC, Json
@@ -13,7 +16,7 @@ Req(n, tt) == (n * tt + 999) \div 1000
 
 RowOK(row) == \A k \in 1..Len(row.r) :
                  \/ row.r[k] = Req(row.n, 509 + k)
-                 \/ PrintT(<<"MISMATCH", row.n, 509 + k, row.r[k], Req(row.n, 509 + k)>>)
+                 \/ PrintT(<<"MISMATCH", row.n, 509 + k, row.r[k], Req(row.n, 509 + k), row.v>>)
 (* least integer that is at least n*t/100, stated directly (the statement) and *)
 (* checked against Req on the same rows, so that Req itself is not trusted     *)
 IsCeil(n, tt, x) == x * 1000 >= n * tt /\ (x - 1) * 1000 < n * tt
